@@ -158,6 +158,9 @@ def run(m, chk):
 
     precheck_weights(r, chk, ["curves.BaseCurve.apply", "curves.Curve.knot_insert"])
     precheck_len(r, chk, "curves.BaseCurve.apply")
+    from .homog import weight_homog
+
+    weight_homog(r, chk, ["curves.BaseCurve.apply"])
     mult_keep(r, chk, ["curves.Curve.knot_insert", "heavy.Operations.knot_insert", "heavy.Operations.one_knot_insert", "heavy.ImmutableKnotVector.__add__", "knotspace.KnotVector.insert", "knotspace.KnotVector.__iadd__"], floor=4, filtered=True)
     rule_d(r, chk, ["curves.Curve.knot_insert"], floor=4)
     committed_deps(r, chk, "curves.Curve.knot_insert", CURVE_FIELDS[1], ["nodes", "self.knotvector", "self.ctrlpoints", "self.weights"])
